@@ -263,13 +263,14 @@ func rewritePackage(t *listedPkg, rel, repo, out string, exports map[string]stri
 		Selections: map[*ast.SelectorExpr]*types.Selection{},
 	}
 	conf := types.Config{Importer: importer.ForCompiler(fset, "gc", lookup)}
-	if _, err := conf.Check(t.ImportPath, fset, files, info); err != nil {
+	tpkg, err := conf.Check(t.ImportPath, fset, files, info)
+	if err != nil {
 		return 0, fmt.Errorf("type check: %w", err)
 	}
 	total := 0
 	for i, af := range files {
 		relFile := filepath.Join(rel, filepath.Base(names[i]))
-		r := &rewriter{fset: fset, info: info, file: af, relFile: relFile, probes: probes, mapOnly: mapOnly, stats: stats}
+		r := &rewriter{fset: fset, info: info, file: af, relFile: relFile, probes: probes, mapOnly: mapOnly, stats: stats, pkg: tpkg}
 		r.run()
 		if len(r.errs) > 0 {
 			return 0, fmt.Errorf("%s", strings.Join(r.errs, "; "))
@@ -393,6 +394,7 @@ type rewriter struct {
 	count   int
 	stats   map[string]int
 	siteCount map[string]int
+	pkg       *types.Package
 }
 
 func (r *rewriter) errf(pos token.Pos, f string, a ...any) {
@@ -509,6 +511,14 @@ var funcMap = map[string]string{
 }
 
 func (r *rewriter) run() {
+	if r.probes && !r.mapOnly {
+		// probes first: they need the type information of the untouched tree
+		for _, d := range r.file.Decls {
+			if fd, ok := d.(*ast.FuncDecl); ok && fd.Body != nil {
+				fd.Body.List = r.probeList(fd.Body.List)
+			}
+		}
+	}
 	if !r.mapOnly {
 		r.passA()
 	} else {
@@ -1051,3 +1061,418 @@ func (r *rewriter) rangeStmt(s *ast.RangeStmt) []ast.Stmt {
 }
 
 var _ = sort.Strings
+
+// ---------------------------------------------------------------------------------------
+// access probes for the race detector (only with -probes)
+
+type accInfo struct {
+	expr  ast.Expr // the accessed expression
+	isMap bool
+	desc  string
+	pos   token.Pos
+}
+
+func (r *rewriter) isSyncType(t types.Type) bool {
+	for {
+		p, ok := t.(*types.Pointer)
+		if !ok {
+			break
+		}
+		t = p.Elem()
+	}
+	n, ok := t.(*types.Named)
+	if !ok || n.Obj().Pkg() == nil {
+		return false
+	}
+	switch n.Obj().Pkg().Path() {
+	case "sync", "sync/atomic", "context":
+		return true
+	}
+	return false
+}
+
+// localStruct reports whether t (after dereferencing one pointer) is a struct type declared in this package.
+func (r *rewriter) localStructPtr(t types.Type) (string, bool) {
+	p, ok := t.Underlying().(*types.Pointer)
+	if !ok {
+		return "", false
+	}
+	n, ok := p.Elem().(*types.Named)
+	if !ok || n.Obj().Pkg() == nil || n.Obj().Pkg() != r.pkg {
+		return "", false
+	}
+	if _, ok := n.Underlying().(*types.Struct); !ok {
+		return "", false
+	}
+	return n.Obj().Name(), true
+}
+
+// accessesIn lists the shared-memory reads performed by evaluating e (not descending into function literals).
+func (r *rewriter) accessesIn(e ast.Expr) []accInfo {
+	var out []accInfo
+	var walk func(n ast.Expr, addrOf bool)
+	walk = func(n ast.Expr, addrOf bool) {
+		switch x := n.(type) {
+		case nil:
+		case *ast.ParenExpr:
+			walk(x.X, addrOf)
+		case *ast.FuncLit:
+		case *ast.UnaryExpr:
+			walk(x.X, x.Op == token.AND)
+		case *ast.SelectorExpr:
+			if sel, ok := r.info.Selections[x]; ok && sel.Kind() == types.FieldVal {
+				if name, ok := r.localStructPtr(r.info.TypeOf(x.X)); ok && !addrOf && !r.isSyncType(sel.Type()) {
+					if _, isFunc := sel.Type().Underlying().(*types.Signature); !isFunc {
+						out = append(out, accInfo{expr: x, desc: name + "." + x.Sel.Name, pos: x.Pos()})
+					}
+				}
+				walk(x.X, false)
+				return
+			}
+			if _, isSel := r.info.Selections[x]; isSel {
+				walk(x.X, false)
+			}
+		case *ast.IndexExpr:
+			t := r.info.TypeOf(x.X)
+			if t != nil {
+				switch t.Underlying().(type) {
+				case *types.Map:
+					if !addrOf {
+						out = append(out, accInfo{expr: x.X, isMap: true, desc: "map " + exprString(x.X), pos: x.Pos()})
+					}
+				case *types.Slice:
+					if !addrOf {
+						out = append(out, accInfo{expr: x, desc: "element of " + exprString(x.X), pos: x.Pos()})
+					}
+				}
+			}
+			walk(x.X, false)
+			walk(x.Index, false)
+		case *ast.Ident:
+			if v, ok := r.info.Uses[x].(*types.Var); ok && !addrOf && v.Pkg() == r.pkg && v.Parent() == r.pkg.Scope() && !r.isSyncType(v.Type()) {
+				out = append(out, accInfo{expr: x, desc: "package variable " + x.Name, pos: x.Pos()})
+			}
+		case *ast.CallExpr:
+			if r.isBuiltin(x.Fun, "len") && len(x.Args) == 1 {
+				if t := r.info.TypeOf(x.Args[0]); t != nil {
+					if _, ok := t.Underlying().(*types.Map); ok {
+						out = append(out, accInfo{expr: x.Args[0], isMap: true, desc: "map " + exprString(x.Args[0]), pos: x.Pos()})
+					}
+				}
+			}
+			walk(x.Fun, false)
+			for _, a := range x.Args {
+				walk(a, false)
+			}
+		case *ast.BinaryExpr:
+			walk(x.X, false)
+			walk(x.Y, false)
+		case *ast.StarExpr:
+			walk(x.X, false)
+		case *ast.TypeAssertExpr:
+			walk(x.X, false)
+		case *ast.SliceExpr:
+			walk(x.X, false)
+			walk(x.Low, false)
+			walk(x.High, false)
+		case *ast.CompositeLit:
+			for _, el := range x.Elts {
+				if kv, ok := el.(*ast.KeyValueExpr); ok {
+					walk(kv.Value, false)
+				} else {
+					walk(el, false)
+				}
+			}
+		case *ast.KeyValueExpr:
+			walk(x.Value, false)
+		}
+	}
+	walk(e, false)
+	return out
+}
+
+func exprString(e ast.Expr) string {
+	var buf bytes.Buffer
+	_ = printer.Fprint(&buf, token.NewFileSet(), e)
+	s := buf.String()
+	if len(s) > 40 {
+		s = s[:40]
+	}
+	return s
+}
+
+// writeTarget describes the location written by assigning to lhs (and the reads needed to reach it).
+func (r *rewriter) writeTarget(lhs ast.Expr) (w *accInfo, reads []accInfo) {
+	switch x := lhs.(type) {
+	case *ast.ParenExpr:
+		return r.writeTarget(x.X)
+	case *ast.SelectorExpr:
+		if sel, ok := r.info.Selections[x]; ok && sel.Kind() == types.FieldVal {
+			reads = r.accessesIn(x.X)
+			if name, ok := r.localStructPtr(r.info.TypeOf(x.X)); ok && !r.isSyncType(sel.Type()) {
+				return &accInfo{expr: x, desc: name + "." + x.Sel.Name, pos: x.Pos()}, reads
+			}
+			return nil, reads
+		}
+	case *ast.IndexExpr:
+		reads = append(r.accessesIn(x.X), r.accessesIn(x.Index)...)
+		if t := r.info.TypeOf(x.X); t != nil {
+			switch t.Underlying().(type) {
+			case *types.Map:
+				return &accInfo{expr: x.X, isMap: true, desc: "map " + exprString(x.X), pos: x.Pos()}, reads
+			case *types.Slice:
+				return &accInfo{expr: x, desc: "element of " + exprString(x.X), pos: x.Pos()}, reads
+			}
+		}
+		return nil, reads
+	case *ast.Ident:
+		if v, ok := r.info.Uses[x].(*types.Var); ok && v.Pkg() == r.pkg && v.Parent() == r.pkg.Scope() && !r.isSyncType(v.Type()) {
+			return &accInfo{expr: x, desc: "package variable " + x.Name, pos: x.Pos()}, nil
+		}
+	case *ast.StarExpr:
+		return nil, r.accessesIn(x.X)
+	}
+	return nil, nil
+}
+
+func (r *rewriter) probe(a accInfo, write bool) ast.Stmt {
+	w := ast.NewIdent("false")
+	if write {
+		w = ast.NewIdent("true")
+	}
+	desc := &ast.BasicLit{Kind: token.STRING, Value: strconv.Quote(a.desc)}
+	r.bump("probe")
+	if a.isMap {
+		return &ast.ExprStmt{X: call(vrtSel("AccMap"), r.site(a.pos), a.expr, desc, w)}
+	}
+	return &ast.ExprStmt{X: call(vrtSel("Acc"), r.site(a.pos), &ast.UnaryExpr{Op: token.AND, X: &ast.ParenExpr{X: a.expr}}, desc, w)}
+}
+
+// firstCallPos returns the position of the first real call / channel operation in the expressions.
+func (r *rewriter) firstCallPos(exprs ...ast.Expr) token.Pos {
+	first := token.NoPos
+	for _, e := range exprs {
+		if e == nil {
+			continue
+		}
+		ast.Inspect(e, func(n ast.Node) bool {
+			switch x := n.(type) {
+			case *ast.FuncLit:
+				return false
+			case *ast.CallExpr:
+				if tv, ok := r.info.Types[x.Fun]; ok && tv.IsType() {
+					return true // conversion
+				}
+				if id, ok := x.Fun.(*ast.Ident); ok {
+					if _, isB := r.info.Uses[id].(*types.Builtin); isB {
+						return true
+					}
+				}
+				if first == token.NoPos || x.Pos() < first {
+					first = x.Pos()
+				}
+			case *ast.UnaryExpr:
+				if x.Op == token.ARROW && (first == token.NoPos || x.Pos() < first) {
+					first = x.Pos()
+				}
+			}
+			return true
+		})
+	}
+	return first
+}
+
+// probesFor computes the probes placed before and after statement s.
+func (r *rewriter) probesFor(s ast.Stmt) (pre, post []ast.Stmt) {
+	var reads []accInfo
+	var writes []accInfo
+	var exprs []ast.Expr
+	switch x := s.(type) {
+	case *ast.AssignStmt:
+		for _, e := range x.Rhs {
+			reads = append(reads, r.accessesIn(e)...)
+			exprs = append(exprs, e)
+		}
+		for _, l := range x.Lhs {
+			if x.Tok == token.DEFINE {
+				continue
+			}
+			w, rs := r.writeTarget(l)
+			reads = append(reads, rs...)
+			if w != nil {
+				writes = append(writes, *w)
+				if x.Tok != token.ASSIGN {
+					reads = append(reads, *w) // op-assignment reads the target too
+				}
+			}
+			exprs = append(exprs, l)
+		}
+	case *ast.IncDecStmt:
+		w, rs := r.writeTarget(x.X)
+		reads = append(reads, rs...)
+		if w != nil {
+			reads = append(reads, *w)
+			writes = append(writes, *w)
+		}
+	case *ast.ExprStmt:
+		if ce, ok := x.X.(*ast.CallExpr); ok && (r.isBuiltin(ce.Fun, "delete") || r.isBuiltin(ce.Fun, "clear")) && len(ce.Args) >= 1 {
+			if t := r.info.TypeOf(ce.Args[0]); t != nil {
+				if _, ok := t.Underlying().(*types.Map); ok {
+					writes = append(writes, accInfo{expr: ce.Args[0], isMap: true, desc: "map " + exprString(ce.Args[0]), pos: ce.Pos()})
+				}
+			}
+			for _, a := range ce.Args {
+				reads = append(reads, r.accessesIn(a)...)
+			}
+			break
+		}
+		reads = append(reads, r.accessesIn(x.X)...)
+		exprs = append(exprs, x.X)
+	case *ast.SendStmt:
+		reads = append(reads, r.accessesIn(x.Chan)...)
+		reads = append(reads, r.accessesIn(x.Value)...)
+		exprs = append(exprs, x.Value)
+	case *ast.ReturnStmt:
+		for _, e := range x.Results {
+			reads = append(reads, r.accessesIn(e)...)
+			exprs = append(exprs, e)
+		}
+	case *ast.IfStmt:
+		if x.Init == nil {
+			reads = append(reads, r.accessesIn(x.Cond)...)
+			exprs = append(exprs, x.Cond)
+		}
+	case *ast.SwitchStmt:
+		if x.Init == nil && x.Tag != nil {
+			reads = append(reads, r.accessesIn(x.Tag)...)
+			exprs = append(exprs, x.Tag)
+		}
+	case *ast.RangeStmt:
+		reads = append(reads, r.accessesIn(x.X)...)
+		exprs = append(exprs, x.X)
+	case *ast.DeferStmt:
+		for _, a := range x.Call.Args {
+			reads = append(reads, r.accessesIn(a)...)
+		}
+	case *ast.GoStmt:
+		for _, a := range x.Call.Args {
+			reads = append(reads, r.accessesIn(a)...)
+		}
+	case *ast.DeclStmt:
+		if gd, ok := x.Decl.(*ast.GenDecl); ok {
+			for _, sp := range gd.Specs {
+				if vs, ok := sp.(*ast.ValueSpec); ok {
+					for _, v := range vs.Values {
+						reads = append(reads, r.accessesIn(v)...)
+						exprs = append(exprs, v)
+					}
+				}
+			}
+		}
+	}
+	first := r.firstCallPos(exprs...)
+	seen := map[string]bool{}
+	for _, a := range reads {
+		if first != token.NoPos && a.pos > first {
+			r.bump("unprobed-read-after-call")
+			continue
+		}
+		k := fmt.Sprintf("r%s%d", a.desc, a.pos)
+		if seen[k] {
+			continue
+		}
+		seen[k] = true
+		pre = append(pre, r.probe(a, false))
+	}
+	for _, a := range writes {
+		if first != token.NoPos {
+			post = append(post, r.probe(a, true))
+		} else {
+			pre = append(pre, r.probe(a, true))
+		}
+	}
+	if _, isRet := s.(*ast.ReturnStmt); isRet {
+		post = nil
+	}
+	return pre, post
+}
+
+// probeList inserts probes into a statement list, recursing into nested statements first.
+func (r *rewriter) probeList(list []ast.Stmt) []ast.Stmt {
+	var out []ast.Stmt
+	for _, s := range list {
+		pre, post := r.probesFor(s)
+		r.probeNested(s)
+		out = append(out, pre...)
+		out = append(out, s)
+		out = append(out, post...)
+	}
+	return out
+}
+
+func (r *rewriter) probeFuncLits(n ast.Node) {
+	if n == nil {
+		return
+	}
+	ast.Inspect(n, func(m ast.Node) bool {
+		if fl, ok := m.(*ast.FuncLit); ok {
+			fl.Body.List = r.probeList(fl.Body.List)
+			return false
+		}
+		return true
+	})
+}
+
+func (r *rewriter) probeNested(s ast.Stmt) {
+	switch x := s.(type) {
+	case *ast.BlockStmt:
+		x.List = r.probeList(x.List)
+	case *ast.LabeledStmt:
+		r.probeNested(x.Stmt)
+	case *ast.IfStmt:
+		x.Body.List = r.probeList(x.Body.List)
+		if x.Else != nil {
+			if b, ok := x.Else.(*ast.BlockStmt); ok {
+				b.List = r.probeList(b.List)
+			} else {
+				r.probeNested(x.Else)
+			}
+		}
+		r.probeFuncLits(x.Cond)
+	case *ast.ForStmt:
+		x.Body.List = r.probeList(x.Body.List)
+	case *ast.RangeStmt:
+		x.Body.List = r.probeList(x.Body.List)
+	case *ast.SwitchStmt:
+		for _, c := range x.Body.List {
+			cc := c.(*ast.CaseClause)
+			cc.Body = r.probeList(cc.Body)
+		}
+	case *ast.TypeSwitchStmt:
+		for _, c := range x.Body.List {
+			cc := c.(*ast.CaseClause)
+			cc.Body = r.probeList(cc.Body)
+		}
+	case *ast.SelectStmt:
+		for _, c := range x.Body.List {
+			cc := c.(*ast.CommClause)
+			cc.Body = r.probeList(cc.Body)
+		}
+	case *ast.AssignStmt:
+		for _, e := range x.Rhs {
+			r.probeFuncLits(e)
+		}
+	case *ast.ExprStmt:
+		r.probeFuncLits(x.X)
+	case *ast.GoStmt:
+		r.probeFuncLits(x.Call)
+	case *ast.DeferStmt:
+		r.probeFuncLits(x.Call)
+	case *ast.ReturnStmt:
+		for _, e := range x.Results {
+			r.probeFuncLits(e)
+		}
+	case *ast.DeclStmt:
+		r.probeFuncLits(x.Decl)
+	}
+}
